@@ -338,6 +338,19 @@ def run_extsplit(case, res):
     c = extsplit.build(cfg, f, obs)
     with contextlib.redirect_stdout(io.StringIO()):
         extsplit.run(c, cfg, err)
+    if obs.steps >= 1 and rng.random() < 0.25:
+        # the documented way to go on from an existing refinement: performSpatiallyAdaptiv(start levels, refinement_container=current one);
+        # the observer keeps comparing every reported value with the recomputation and with evaluate_final_combi on a copy
+        obs.max_steps = obs.steps + rng.randint(1, 3)
+        cfg["restarted_with_refinement_container"] = True
+        res.count("restarts_with_refinement_container")
+        with contextlib.redirect_stdout(io.StringIO()):
+            extsplit.run(c, cfg, err, refinement_container=c.refinement)
+        res.hash = digest([cfg, obs.evals])
+        res.nontrivial = obs.evals >= 2
+        res.states.add(extsplit.structure_digest(c))
+        res.sample = {"config": cfg, "evaluations": obs.evals, "trace": obs.trace[:6]}
+        return
     final = np.array(c.operation.get_result(), dtype=float)
     npts = c.get_total_num_points()
     outs = []
